@@ -1,46 +1,24 @@
-"""Per-property configuration of checks/check.py: Lean modules and theorems that are the
-proof obligations, harness units that tie the model to the code, oracle units."""
+"""Per-property configuration of checks/check.py, loaded from checks/props.d/<ID>.py.
+Each file defines ENTRY (lean modules, theorems = proof obligations, harness units) and
+MANIFEST (texts for MANIFEST.json)."""
+import glob
+import importlib.util
+import os
 
 COMMON_ASSUME = [
     "the theorems are about the hand-written Lean model; only the correspondence run ties it to /repo",
 ]
 
-PROPS = {
-    "C20": {
-        "lean_modules": ["AstGrepVerif.Props.C20"],
-        "theorems": [
-            "AGV.C20.extract_spec",
-            "AGV.C20.no_hole_foreign_char",
-            "AGV.C20.no_hole_digit_first",
-            "AGV.C20.no_hole_lone_sigil",
-            "AGV.C20.uniform_across_languages",
-            "AGV.C20.langExtract_uniform",
-            "AGV.C20.expando_table_classified",
-            "AGV.C20.underscore_expando_counterexample",
-            "AGV.C20.template_literal",
-            "AGV.C20.template_first_var",
-            "AGV.C20.template_var_names_valid",
-            "AGV.C20.anb_iff",
-            "AGV.C20.isMatched_no_overflow",
-            "AGV.C20.substring_python",
-        ],
-        "units": ["metavar", "anb", "substring", "template_scan", "c20_oracle"],
-        "trusted_base": [
-            "modelled, not verified: extract_meta_var, pre_process_pattern, parse_an_b, is_matched, resolve_char/Substring::compute, split_first_meta_var, create_template",
-            "generated table: expando_char()/meta_var_char() of the 23 built-in languages",
-        ],
-        "assumptions": COMMON_ASSUME + [
-            "tree-sitter parsing of pattern text is outside this property's model (Pattern shape is covered under C02)",
-        ],
-    },
-}
-
-# text for MANIFEST.json (checks/gen_manifest.py)
-MANIFEST_TEXT = {
-    "C20": {
-        "text": "Lean theorems over the executable model, for unbounded inputs: An+B index test = exists n>=0 with i+1 = A*n+B (anb_iff, every A and B, truncating division), i32 computation agrees when |A|,|B|,i < 2^30 (isMatched_no_overflow), substring = Python slice on characters (substring_python), meta-variable spelling recogniser characterised and proved uniform across every expando that is not itself a name character (extract_* / uniform_across_languages, with the `_`-expando languages recorded as a counter-example = known finding), template scanner facts. The model is tied to the code by exhaustive enumeration of short strings through the real functions of all 23 languages plus seeded random longer inputs, replayed on the Lean driver.",
-        "note": "Trusted: Lean kernel + 3 standard axioms; the harness/driver/check.py glue; tree-sitter parsing of pattern text is not part of this property's model. Modelled-not-verified functions are listed in evidence.trusted_base.",
-        "technique": "Lean 4 proof over hand-written executable model + differential correspondence (exhaustive short strings, seeded random) + generated expando table checked by `decide`",
-    },
-}
+PROPS = {}
+MANIFEST_TEXT = {}
 NOT_YET = {}
+_d = os.path.join(os.path.dirname(os.path.abspath(__file__)), "props.d")
+for _p in sorted(glob.glob(os.path.join(_d, "C*.py"))):
+    _id = os.path.basename(_p)[:-3]
+    _spec = importlib.util.spec_from_file_location("props_" + _id, _p)
+    _m = importlib.util.module_from_spec(_spec)
+    _spec.loader.exec_module(_m)
+    _e = dict(_m.ENTRY)
+    _e["assumptions"] = COMMON_ASSUME + _e.get("assumptions", [])
+    PROPS[_id] = _e
+    MANIFEST_TEXT[_id] = _m.MANIFEST
